@@ -293,15 +293,55 @@ fn analysis_check(s: &mut Sess<LA, SimAn>, p: u32, out: &mut Outcome, at: usize,
     None
 }
 
-fn fingerprint(s: &mut Sess<LA, SimAn>) -> String {
-    let p = s.eg.progress();
+/// Independent fingerprint of the observable state: it uses ids/slots/enodes/eq only, never
+/// EGraph::progress (whose truthfulness C15 is about).
+fn fingerprint<L: SimLang, N: Analysis<L>>(s: &mut Sess<L, N>) -> String {
+    let ids = s.eg.ids();
+    let live = ids.len();
+    let slot_sum: usize = ids.iter().map(|i| s.eg.slots(*i).len()).sum();
     let mut part: Vec<(usize, usize)> = Vec::new();
     // equality partition over tracked terms (identity renaming) + kept slot counts
     let n = s.tracked.len();
+    let mut syms = 0usize;
     for i in 0..n {
         let hi = s.tracked[i].h.clone();
         let f = s.eg.find_applied_id(&hi);
         part.push((f.id.0, f.slots().len()));
+        // symmetries by probing eq with every permutation of the kept slots (up to 4 slots)
+        let ks: Vec<Slot> = f.slots().iter().copied().collect();
+        if ks.len() >= 2 && ks.len() <= 4 && i < 16 {
+            let mut idx: Vec<usize> = (0..ks.len()).collect();
+            // Heap's algorithm, iterative
+            let mut c = vec![0usize; ks.len()];
+            let mut probe = |idx: &Vec<usize>, s: &mut Sess<L, N>| {
+                let mut m = SlotMap::new();
+                for (a, b) in idx.iter().enumerate() {
+                    m.insert(ks[a], ks[*b]);
+                }
+                if s.eg.eq(&f, &f.apply_slotmap_partial(&m)) {
+                    1
+                } else {
+                    0
+                }
+            };
+            syms += probe(&idx, s);
+            let mut k = 0;
+            while k < ks.len() {
+                if c[k] < k {
+                    if k % 2 == 0 {
+                        idx.swap(0, k);
+                    } else {
+                        idx.swap(c[k], k);
+                    }
+                    syms += probe(&idx, s);
+                    c[k] += 1;
+                    k = 0;
+                } else {
+                    c[k] = 0;
+                    k += 1;
+                }
+            }
+        }
     }
     let mut eqs = String::new();
     for i in 0..n.min(12) {
@@ -320,7 +360,7 @@ fn fingerprint(s: &mut Sess<LA, SimAn>) -> String {
             (*canon.entry(id).or_insert(l), k)
         })
         .collect();
-    format!("{}/{}/{}/{}/{}/{:?}/{}", s.eg.total_number_of_nodes(), p.number_of_live_classes, p.sum_of_slots, p.sum_of_symmetries, state_hash(&s.eg), part, eqs)
+    format!("{}/{}/{}/{}/{}/{:?}/{}", s.eg.total_number_of_nodes(), live, slot_sum, syms, state_hash(&s.eg), part, eqs)
 }
 
 impl Check for RwCheck {
@@ -563,6 +603,78 @@ fn exec_c11r(run: &Run) -> Outcome {
     out
 }
 
+/// C15, driver 3: a k-slot leaf (optionally with parents); each apply_rewrites call applies one
+/// slot-permuting rule p_k($0..) => p_k(pi($0..)). A call that only makes the class's symmetry
+/// group grow must still report a change.
+fn exec_symmetry_growth(run: &Run) -> Outcome {
+    let mut out = Outcome::default();
+    seam::apply(&run.knobs());
+    let k = run.get("leaf_slots").clamp(2, 4) as usize;
+    let mut s: Sess<LS, ()> = Sess::new(EGraph::new(()), run.get("naming") as u32);
+    let base: Vec<S> = (0..k as S).collect();
+    let leaf = Tm::leaf(&format!("p{k}"), base.clone());
+    let setup = catch_op(|| {
+        s.add_term(&leaf, false);
+        for p in 0..run.get("parents").rem_euclid(3) {
+            let t = if p == 0 { Tm::node("u", vec![], vec![(vec![], leaf.clone())]) } else { Tm::node("g", vec![0], vec![(vec![], leaf.clone())]) };
+            s.add_term(&t, false);
+        }
+    });
+    if setup.is_err() {
+        out.discarded = Some("panic".into());
+        return out;
+    }
+    let perms: Vec<i64> = run.ops.iter().find(|o| o.name == "perms").map(|o| o.i.clone()).unwrap_or_default();
+    let mut changed_any = false;
+    for (it, pi) in perms.iter().enumerate() {
+        // the pi-th permutation of the k slots (lexicographic unranking)
+        let mut avail: Vec<S> = base.clone();
+        let mut n = pi.rem_euclid((1..=k as i64).product()) as usize;
+        let mut image: Vec<S> = Vec::new();
+        for i in (0..k).rev() {
+            let f: usize = (1..=i).product();
+            image.push(avail.remove(n / f.max(1)));
+            n %= f.max(1);
+        }
+        let l: Pattern<LS> = Pat::from_tm(&leaf).to_pattern::<LS>(&mut s.nm);
+        let r: Pattern<LS> = Pat::from_tm(&Tm::leaf(&format!("p{k}"), image.clone())).to_pattern::<LS>(&mut s.nm);
+        let l2 = l.clone();
+        let rw: Rewrite<LS, ()> = RewriteT {
+            searcher: Box::new(move |eg: &EGraph<LS, ()>| ematch_all(eg, &l)),
+            applier: Box::new(move |substs: Vec<Subst>, eg: &mut EGraph<LS, ()>| {
+                for sb in substs {
+                    eg.union_instantiations(&l2, &r, &sb, Some("perm".to_string()));
+                }
+            }),
+        }
+        .into();
+        let before = fingerprint(&mut s);
+        let res = match catch_op(|| apply_rewrites(&mut s.eg, &[rw])) {
+            Ok(r) => r,
+            Err(_) => {
+                out.discarded = Some("panic".into());
+                return out;
+            }
+        };
+        let after = fingerprint(&mut s);
+        out.bump("apply_rewrites_calls");
+        if before != after {
+            changed_any = true;
+            out.bump("symmetry_growth_steps");
+        }
+        if !res && before != after {
+            out.violations.push(viol("C15", "false_means_unchanged", format!("apply_rewrites returned false for the rule {leaf} => p{k}{image:?} in call {it}, but the fingerprint changed: {before} -> {after}"), it));
+            return out;
+        }
+    }
+    super::matching::finish_counters(&mut out, run);
+    out.states.push(state_hash(&s.eg));
+    out.bump("stop:symmetry-loop");
+    out.log_hash = crate::rng::hash_str(&fingerprint(&mut s));
+    out.nontrivial = changed_any;
+    out
+}
+
 // =============================================================================================
 // C15: saturation and stop reasons
 // =============================================================================================
@@ -585,7 +697,17 @@ impl Check for StopCheck {
         }
         run.ops.push(r);
         let mut w = Rng::stream(seed, "runner");
-        run.set("driver", w.below(3) as i64); // 0 Runner, 1 run_eqsat, 2 apply_rewrites loop
+        // 0 Runner, 1 run_eqsat, 2 apply_rewrites loop, 3 symmetry growth on a multi-slot leaf
+        run.set("driver", w.weighted(&[4, 3, 3, 2]) as i64);
+        if run.get("driver") == 3 {
+            let mut o = Op::new("perms");
+            for _ in 0..w.range(2, 5) {
+                o = o.i(w.below(24) as i64);
+            }
+            run.ops.push(o);
+            run.set("leaf_slots", *w.pick(&[3, 3, 4]));
+            run.set("parents", w.below(3) as i64);
+        }
         run.set("iter_limit", *w.pick(&[0, 1, 2, 3, 5, 8]));
         run.set("node_limit", *w.pick(&[0, 5, 20, 60, 200, 100000]));
         // time limit in milliseconds of simulated time (run_eqsat: whole seconds)
@@ -612,6 +734,9 @@ impl Check for StopCheck {
         }
     }
     fn exec(&self, run: &Run) -> Outcome {
+        if run.get("driver").rem_euclid(4) == 3 {
+            return exec_symmetry_growth(run);
+        }
         let mut out = Outcome::default();
         seam::apply(&run.knobs());
         let ms = 1_000_000u64;
@@ -652,7 +777,7 @@ impl Check for StopCheck {
         let node_limit = run.get("node_limit").max(0) as usize;
         let time_limit_ms = run.get("time_limit_ms").max(0) as u64;
         let hook_fail_at = run.get("hook_fail_at");
-        let driver = run.get("driver").rem_euclid(3);
+        let driver = run.get("driver").rem_euclid(4);
         let fp0 = fingerprint(&mut s);
         let t_start = seam::clock_now();
 
